@@ -535,6 +535,7 @@ func c02(c *Ctx) {
 	lockReleaseRule(c, "recv-loop-lock-released", append([]*ssa.Function(nil), fns...), 2, "mutex acquisitions in the receive loop's reach", "the receive loop blocks for ever at the next acquisition")
 	c02SendOnClosed(c, fns)
 	c02NoRelock(c, fns)
+	c02CounterReleased(c, canaryRel)
 	// the knock detector is fed by every probe frame and runs without a recover: the one place where it indexes a list by a
 	// frame-driven count is the port list of a report, which must be sized by the very set it is filled from (shared with C20)
 	if kd := p.Method(canaryRel, "Canary", "knockDetector"); c.Anchor(kd != nil, "knock-list-index-safe", "(*canary.Canary).knockDetector") {
